@@ -45,6 +45,35 @@ func mkTarget(summary bool, bounds []float64) target {
 	return prometheus.NewHistogram(prometheus.HistogramOpts{Name: "h", Buckets: bounds}).(target)
 }
 
+// A collected result belongs to the caller: later observations and collections must not change it. Every
+// Write output of a run is retained with its text form and re-read when the run is over.
+var (
+	keptMu    sync.Mutex
+	kept      []*dto.Metric
+	keptText  []string
+	aliasing  int
+	aliasWhat string
+)
+
+func keep(m *dto.Metric) {
+	keptMu.Lock()
+	kept = append(kept, m)
+	keptText = append(keptText, m.String())
+	keptMu.Unlock()
+}
+
+func recheckKept() {
+	keptMu.Lock()
+	for i, m := range kept {
+		if now := m.String(); now != keptText[i] {
+			aliasing++
+			aliasWhat = "was: " + keptText[i] + " now: " + now
+		}
+	}
+	kept, keptText = nil, nil
+	keptMu.Unlock()
+}
+
 func doOp(t target, o op) string {
 	if !o.write {
 		if eo, ok := t.(prometheus.ExemplarObserver); ok && o.ex {
@@ -54,10 +83,11 @@ func doOp(t target, o op) string {
 		}
 		return emit.C(0)
 	}
-	var m dto.Metric
-	if err := t.Write(&m); err != nil {
+	m := new(dto.Metric)
+	if err := t.Write(m); err != nil {
 		return emit.C(9)
 	}
+	keep(m)
 	if m.Summary != nil {
 		return emit.C(1, emit.Tup(emit.U(m.Summary.GetSampleCount()), emit.F(m.Summary.GetSampleSum()), emit.L(nil), emit.L(nil)))
 	}
@@ -159,6 +189,7 @@ func runC02(c *cli.Ctx) error {
 				return bodies
 			}
 			visit := func(res vsched.Result) {
+				recheckKept()
 				var all []callRec
 				for _, rr := range recs {
 					all = append(all, rr...)
@@ -189,6 +220,10 @@ func runC02(c *cli.Ctx) error {
 		w.Extra["programs_explored_exhaustively"] = exhaustive
 		w.Extra["schedules"] = schedules
 		w.Extra["schedules_with_spin"] = spins
+		if aliasing > 0 {
+			w.Extra["direct_failures"] = []map[string]interface{}{{"index": -1, "what": fmt.Sprintf("%d collected results changed after a later observation/collection (a Write output shares state with the metric): %s", aliasing, aliasWhat)}}
+			aliasing = 0
+		}
 		if err := w.Flush(); err != nil {
 			return err
 		}
@@ -242,12 +277,17 @@ func runC02(c *cli.Ctx) error {
 				for _, rr := range recs {
 					all = append(all, rr...)
 				}
+				recheckKept()
 			}
 			w.Add(emit.Tup(emit.I(kind), emit.FL(bounds), progsSx(progs), emit.L(nil), emit.L(nil), callsSx(all), emit.I(flags)), true, fmt.Sprintf("threads:%d", nthreads))
 			if flags != 0 {
 				w.Extra["stopped_after_hang_at_run"] = it
 				break
 			}
+		}
+		if aliasing > 0 {
+			w.Extra["direct_failures"] = []map[string]interface{}{{"index": -1, "what": fmt.Sprintf("%d collected results changed after a later observation/collection (a Write output shares state with the metric): %s", aliasing, aliasWhat)}}
+			aliasing = 0
 		}
 		if err := w.Flush(); err != nil {
 			return err
